@@ -7,6 +7,8 @@ from sa import report, rules_marks as RM, rules_read as RD, rules_reader as RR, 
 from sa import rules_extra as RX
 from sa import rules_grammar as RG
 
+from sa import rules_r12 as R12
+
 
 def run(ctx, repo):
     ctx.explanation = (
@@ -41,6 +43,7 @@ def run(ctx, repo):
     XL.reader_positions(ctx, repo)
     ctx.call(R6B.r_error_mark_order, repo)
 
+    ctx.call(R12.r_event_marks_from_tokens, repo)
 
 if __name__ == '__main__':
     sys.exit(report.main('C09', 'other', run))
